@@ -44,7 +44,7 @@ def run(tier):
     plans = []
     for impl in ('sync', 'async'):
         for mon in (False, True):
-            for dr in (False, True):
+            for dr in (False, True, 'cancel'):
                 cfg = {'ping_interval': 8, 'ping_timeout': 4, 'monitor': mon, 'disc_raises': dr}
                 plans.append(dict(
                     what='random histories with every end cause, monitor=%s, disconnect handler '
